@@ -57,6 +57,38 @@ CHECKS = {
    text="Every (n,m) in [0,300]x[1,64] (thorough [0,2048]x[1,300]) and the NumCPU-default form are executed on the real Execute and the multiset of ranges is checked; every interleaving of caller and workers for n<=5, m<=4 is explored without bound (DPOR; cross-checked against reduction-free search) with a yielding work function, so 'returns only after every invocation has returned' is decided for all schedules of these harnesses, not sampled.",
    note="Scheduling points are the visible synchronisation operations; data-race freedom is a separate premise; m>=1."),
 }
+
+CHECKS.update({
+ "C07": dict(cat="model_checking", ref="§3 C07, §2.6",
+   technique="explicit-state breadth-first search over a two-register machine of real group elements (27 API operations, exact-limb state keys, depth 3/4), invariant evaluated in every state against an independent reference class",
+   text="Every operation sequence up to the depth bound is applied to real Elements and to the reference; in each of the ~10^4 (quick) distinct concrete states Bytes equals the reference class encoding, Equal agrees with class equality and byte equality (reflexive, symmetric, transitive on the triples at hand), decode(Bytes) is Equal, nothing equals the all-zero value, and bytes are path-independent across all visited states.",
+   note="Bound = depth; element values reachable from G, SRS[0], SRS[1], SRS[255] with the menu's scalars."),
+ "C09": dict(cat="model_checking", ref="§3 C09, §2.4",
+   technique="stateless model checking (unbounded DPOR) of the MSM fan-out/fan-in for every window size and split setting on small inputs + bounded-exhaustive enumeration of sizes x task counts x scalar forms x small-scalar shares against a reference sum, and of the signed-digit partitioning against its recoding identity",
+   text="All schedules of msmC4..msmC16 (internal entry) and of the split public entry on n<=5 give one outcome and reach no deadlock state; n in 0..64 x 29 task counts x both scalar forms x shares x point menus and all cost-model thresholds up to 9217 points agree with the reference; every (chunk, boundary digit, carry-in) of partitionScalars satisfies the recoding identity for every c.",
+   note="NbTasks<=1024; scheduled exploration on n<=5 points; free-running termination judged with a 15-minute per-unit limit."),
+ "C10": dict(cat="fault_enumeration", ref="§3 C10, §2.5",
+   technique="exhaustive enumeration of reader answer sequences (every Read call is a choice point; all sequences with <= 2 deviations over {1 byte, half, data+EOF, error}), error at every byte offset, writer failure at every call, plus every single-field substitution and every length 0..600 against a reference decoder",
+   text="MultiProof.Read / IPAProof.Read accept exactly what the reference field decoder accepts on every enumerated input, independent of chunking on every enumerated answer sequence; Write(Read(x)) = x; a failing reader or writer always yields an error; no panic.",
+   note="Well-behaved readers never return (0,nil). Found and fixed: trailing byte accepted when delivered with io.EOF."),
+ "C11": dict(cat="model_checking", ref="§3 C11, §2.6",
+   technique="the C07 explicit-state search with the map-to-field invariant: value equals the reference x/y in every state, is path-independent per class and injective over all visited classes; batch variant on every register ordering",
+   text="In every distinct concrete state MapToScalarField equals LE(x/y mod p) mod r computed by the reference, agrees across all representations of a class reached along different histories, differs between different classes, and BatchMapToScalarField (orderings, duplicates, identity, lengths 0..300) equals the single calls.",
+   note="Same bounds as C07."),
+ "C12": dict(cat="model_checking", ref="§3 C12, §2.4",
+   technique="stateless model checking (DPOR over interleavings and sync.Pool answers, pooled objects poisoned) of 2-3 concurrent API calls sharing one config; separate free-running -race pass of the same bodies under GOMAXPROCS 1,2,4,16",
+   text="All 28 pairs and 6 triples of short pool/codec/transcript operations are explored without schedule bound (time cap reported where hit); heavy calls (Commit, MSM, BatchNormalize, IPA/multiproof prove and verify) paired with short and heavy calls under a time cap; every call's output must equal its sequential output, no deadlock state, shared fingerprint unchanged; any race report of the -race pass is a violation.",
+   note="Sequential consistency at visible operations; data races delegated to the race detector on the executions it observes; heavy pairs capped by wall clock."),
+ "C13": dict(cat="model_checking", ref="§3 C13, §2.6",
+   technique="explicit-state search on the deep fingerprint (reflect/unsafe, ~350 MB of tables + all package variables) of everything shared and mutable; 26-call menu from every reachable state, all histories of depth 2/3 with result digests and a probe",
+   text="After every call the shared fingerprint equals the initial one (closed one-state transition system on a pure tree), every caller argument is bit-identical up to slice capacity (commitments may only be re-normalised), every call's result equals its fresh-state result at every position of every history of depth 2 (3 thorough), and a probe after each history is unchanged.",
+   note="gnark-crypto internals are outside the fingerprint; menu arguments are fixed small inputs."),
+ "C19": dict(cat="model_checking", ref="§3 C19",
+   technique="exhaustive enumeration of short lists x pointer-aliasing partitions x CPU counts against single-element operations and the reference encoding; DPOR over map-iteration permutations and worker schedules of BatchNormalize",
+   text="All lists of length <=3 over 6 element values with every set partition as pointer sharing, 12 boundary lengths with duplicate strides, each under NumCPU 1,2,3,16,17; an un-normalisable element at every position must fail without modifying anything; every map order of <=4 pointers x every worker schedule gives the single-element result.",
+   note="Element alphabet of 6 values incl. both identity representatives."),
+})
+
 NOT_YET = {}
 
 def main():
